@@ -275,3 +275,26 @@ func sfileBase(ext, kind string) []byte {
 	w := int64(2)
 	return scenarioText(ext, kind, []scEntry{{name: "s", weight: &w, requests: []string{"a(1)", "sleep(5)"}}, {name: "t", requests: []string{"b"}}})
 }
+
+// weight values in other spellings (expressions, floats, strings, out-of-range numbers, null): the text of
+// a valid two-scenario description with the first weight replaced; fuzzed only (third-party parsers)
+func sfileBoundary() []string {
+	var out []string
+	one := int64(777001)
+	for i, ext := range []string{"hcl", "yaml"} {
+		toks := [][]string{
+			{"1.5", "\"3\"", "-0", "1e3", "99999999999999999999", "-(3)", "0 - 3", "null", "true", "[1]", "-3.0", "3 * -1", "-99999999999999999999", "abs(-3)", "local.w"},
+			{"1.5", "'3'", "-0", "1e3", "99999999999999999999", "-0x3", "0x10", "~", "true", "[1]", "-3.0", "-0b11", "-99999999999999999999", "!!int -3", "-3_0"},
+		}[i]
+		for j, t := range toks {
+			kind := []string{"http", "grpc"}[j%2]
+			base := string(scenarioText(ext, kind, []scEntry{{name: "s", weight: &one, requests: []string{"a"}}, {name: "t", requests: []string{"b"}}}))
+			text := strings.Replace(base, "777001", t, 1)
+			if t == "local.w" {
+				text = "locals {\n  w = -3\n}\n" + text
+			}
+			out = append(out, fmt.Sprintf("sfile %s %s %s", ext, kind, vh.HexS(text)))
+		}
+	}
+	return out
+}
